@@ -967,6 +967,25 @@ fn run_cong(ctx: &mut Ctx, i: u64) {
         let what = what_class(what, &runs[0].2, &runs[ri].2, !hidden);
         let optag = if hidden && plan.def.family == "cast" { "cast".to_string() } else { sig_op(&plan) };
         let sig = format!("C02|cong|{optag}|{}|{what}|{cause}", fam_tag(&plan, &dt));
+        // not asserted: the association order of floating-point sums / products. Run-end
+        // realisations with differently split runs legitimately multiply / add in a different
+        // order (last-ulp differences); only value differences of these float aggregates are
+        // exempt, outcome differences are still reported.
+        let float_leaf = {
+            let mut t = &dt;
+            loop {
+                match t {
+                    DataType::Dictionary(_, v) => t = v,
+                    DataType::RunEndEncoded(_, v) => t = v.data_type(),
+                    _ => break,
+                }
+            }
+            matches!(t, DataType::Float16 | DataType::Float32 | DataType::Float64)
+        };
+        if float_leaf && what.starts_with("value-differs") && (name.starts_with("agg.sum") || name.starts_with("agg.product")) {
+            ctx.count("not_asserted_float_reassociation", 1);
+            continue;
+        }
         ctx.violation(
             &sig,
             format!(
